@@ -138,6 +138,8 @@ func (s *sim) ReadFrom(b []byte) (int, net.Addr, error) {
 func (s *sim) senderAddr(d *dgram) net.Addr {
 	var ip net.IP
 	switch d.sender {
+	case "nonudp": // a connection whose senders are not UDP addresses (a raw IP or packet socket behind WithConn)
+		return &net.IPAddr{IP: net.IPv4(10, 1, 2, byte(d.id))}
 	case "ip":
 		if s.v4 {
 			ip = net.IPv4(10, 1, 2, byte(d.id))
@@ -177,7 +179,10 @@ func (s *sim) peerDesc(d *dgram, peer net.Addr) map[string]any {
 	if !ok {
 		return map[string]any{"addr": "nonudp", "port": 0}
 	}
-	want := s.senderAddr(d).(*net.UDPAddr)
+	want, _ := s.senderAddr(d).(*net.UDPAddr)
+	if want == nil {
+		return map[string]any{"addr": "other", "port": u.Port}
+	}
 	addr := "other"
 	switch {
 	case u.IP.Equal(net.IPv4bcast):
@@ -463,7 +468,7 @@ func (s *sim) run(t *testing.T, steps []step, randomN int) {
 		}
 	}
 	kinds := []string{"valid", "valid", "valid", "undec", "empty", "valid", "undec"}
-	senders := []string{"ip", "noip", "zeroip", "ip"}
+	senders := []string{"ip", "noip", "zeroip", "ip", "ip", "noip", "zeroip", "ip", "nonudp"}
 	for i := 0; i < randomN; i++ {
 		switch r := s.rng.Intn(100); {
 		case r < 40:
